@@ -2,11 +2,12 @@ package main
 
 import (
 	"fmt"
-	"sort"
 	"go/constant"
 	"go/token"
 	"go/types"
 	"math/big"
+	"regexp"
+	"sort"
 	"strings"
 
 	"golang.org/x/tools/go/ssa"
@@ -415,6 +416,7 @@ func (fc *FnCtx) evalSel(e *Expr, env *Env) Val {
 		if fa.Loc != nil {
 			cur = fc.loadLoc(env.heap, fa.Loc)
 			cur.Typ = f.Type()
+			fc.assumeWF(cur, f.Type())
 		} else {
 			cur = fa // reference to embedded struct, typed *T
 		}
@@ -555,7 +557,10 @@ func exprConst(e *Expr, fc *FnCtx, env *Env) *big.Int {
 	switch e.Op {
 	case "num":
 		return e.Num
-	case "ident", "sel", "bin":
+	case "ident", "sel", "bin", "call":
+		if e.Op == "call" && (len(e.Args) != 0 || fc.eng.cs.Macros[e.Name] == nil) {
+			return nil
+		}
 		if e.Op == "ident" {
 			if _, ok := env.bound[e.Name]; ok {
 				return nil
@@ -803,11 +808,16 @@ func (fc *FnCtx) evalCall(e *Expr, env *Env) Val {
 	case "max":
 		a := args()
 		return mathInt(ite(sx(">=", a[0].T, a[1].T), a[0].T, a[1].T))
+	case "wrap64s":
+		return mathInt(intKind{64, true}.wrap(args()[0].T))
 	case "wrap8", "wrap16", "wrap32", "wrap64":
 		bits := map[string]uint{"wrap8": 8, "wrap16": 16, "wrap32": 32, "wrap64": 64}[e.Name]
 		return mathInt(intKind{bits, false}.wrap(args()[0].T))
 	case "held":
 		return boolVal(sel(env.ghost["held"], fc.mutexOf(args()[0])))
+	case "heldonly":
+		// exactly the mutex of the argument is held
+		return boolVal(eq(env.ghost["held"], store("((as const (Array Int Bool)) false)", fc.mutexOf(args()[0]), "true")))
 	case "nolocks":
 		return boolVal(eq(env.ghost["held"], "((as const (Array Int Bool)) false)"))
 	case "inmap":
@@ -990,6 +1000,15 @@ func (e *Engine) assignRegions(a *Expr, tenv map[string]types.Type) (regions []s
 				return nil, true
 			}
 			return e.regionsOfType(t), false
+		case "mapof":
+			t := e.staticType(a.Args[0], tenv)
+			if t == nil {
+				return nil, true
+			}
+			if mt, ok := t.Underlying().(*types.Map); ok {
+				return []string{e.mapRegion(mt, "dom"), e.mapRegion(mt, "val")}, false
+			}
+			return nil, true
 		case "ghost":
 			var rs []string
 			for _, g := range a.Args {
@@ -1214,4 +1233,26 @@ func (fc *FnCtx) mineRef(ref string) string {
 	}
 	sort.Strings(fs)
 	return or(fs...)
+}
+
+var boundVarRe = regexp.MustCompile(`(^|[ (|])(q|l)\.`)
+
+// assumeWF: values read from memory by a contract expression are well-formed values of their type
+// (slice headers consistent, integers in range). Ground terms only.
+func (fc *FnCtx) assumeWF(v Val, t types.Type) {
+	if v.Sort == "" || boundVarRe.MatchString(v.T) {
+		return
+	}
+	f := fc.typeFacts(v, t)
+	if f == "true" {
+		return
+	}
+	if fc.wfSeen == nil {
+		fc.wfSeen = map[string]bool{}
+	}
+	if fc.wfSeen[f] {
+		return
+	}
+	fc.wfSeen[f] = true
+	fc.assume(f)
 }
